@@ -11,7 +11,7 @@ ID = "C04"
 GENERATORS = [storeconsts.generate, storeflow.generate, importids.generate]
 LEAN_MODULES = ["FimVerif.Proofs.C04"]
 P = "FimVerif.C04."
-THEOREMS = [P + t for t in ("flow_is_modelled", "inv_init", "inv_step", "inv_reachable", "ids_distinct_reachable", "step_import_wf",
+THEOREMS = [P + t for t in ("flow_is_modelled", "new_importer_changes_nothing", "importers_made_mid_history", "inv_init", "inv_step", "inv_reachable", "ids_distinct_reachable", "step_import_wf",
                               "delall_keeps_allocator", "frame_general", "frame_general_history", "affects_of_keepsGraphId",
                               "frame_view", "frame", "frame_history", "import_content", "clone_eq", "clone_independent",
                               "reimport_isolated", "foreign_node_refused",
@@ -61,6 +61,12 @@ TRUSTED_BASE = [
     "graph id drawn per call / a fresh one per call; the object clone_graph returns is kept too), failing calls included, and "
     "the oracle asks every kept object the read-only requests again next to a fresh handle of the same id "
     "(C04:<flavour>:handle:<request>:after-[failed-]<op>)",
+    "an IMPORTER is nothing in the models (the store is one per process; Store.enter / DStore.enter: making an importer leaves an "
+    "existing store alone - read from gen/storeflow.py's probe_importers flags, theorems new_importer_changes_nothing / "
+    "importers_made_mid_history).  Checked, not assumed: in three of seven random histories, every third small-scope history and "
+    "a dedicated small scope the process has up to three importer objects made at different moments of the history with / without "
+    "a logger of their own (lib_store.Backend importers='many'); handles keep the importer they were made with; the oracle and "
+    "the correspondence read the store object the class-level singleton holds NOW, not one remembered from the start",
 ]
 ASSUMPTIONS = [
     "an operation that writes the GraphID property (re-homing: update_node(s)_property / update_node_properties / initial "
@@ -127,6 +133,13 @@ def handle_mode(i):
     for the whole history (how the library is used: a graph object lives across calls), often two, now and then a new
     object per call"""
     return HANDLE_CYCLE[i % len(HANDLE_CYCLE)]
+
+
+def importer_mode(i):
+    """which importer objects serve history number i (lib_store.Backend `importers`): in three of seven histories the process
+    has several importer objects, made at different moments and with different constructor arguments (with / without a
+    logger); the graphs stored through one of them are the graphs every other one sees, and making one changes nothing"""
+    return "many" if i % 7 in (0, 3, 5) else "one"
 
 
 def refused_scenario(rng, gids, nids):
@@ -246,13 +259,14 @@ def name_a_graph(rng, h, gids):
 
 
 def histories(ctx, tag, n, length):
-    """[(flavours, history, handle mode, entry mode, entry plan)]"""
+    """[(flavours, history, handle mode, entry mode, entry plan, importer mode)]"""
     rng = ctx.sub_rng(tag)
     rng2 = ctx.sub_rng(tag + "-refused")
     rng3 = ctx.sub_rng(tag + "-workfile")
     rng4 = ctx.sub_rng(tag + "-docid")
     rng5 = ctx.sub_rng(tag + "-lookalike")
-    hs = [(c["flavours"], c["history"], c.get("handles", "one"), c.get("entry", "store"), c.get("plan")) for c in load_corpus()]
+    hs = [(c["flavours"], c["history"], c.get("handles", "one"), c.get("entry", "store"), c.get("plan"),
+           c.get("importers", "one")) for c in load_corpus()]
     for i in range(n):
         h = L.gen_history(rng, rng.randint(6, length), ngraphs=rng.choice([2, 3, 3, 4]),
                           scenario=0.35, merge=True, keys=0.05, delall=0.02)
@@ -276,16 +290,16 @@ def histories(ctx, tag, n, length):
         h = name_a_graph(rng4, copy.deepcopy(h), ["g1", "g2", "g3"])
         if i % 3 == 1:
             h = rename_ids(h, rng5.choice(LOOKALIKE_IDS))
-        hs.append((["shared", "disjoint"], h, handle_mode(i), entry_mode(i), None))
+        hs.append((["shared", "disjoint"], h, handle_mode(i), entry_mode(i), None, importer_mode(i)))
     return hs
 
 
 # ------------------------------------------------------------------------------------------
 # correspondence
 
-def run_impl(flavour, h, seed, handles="one", entry="store", plan=None, res=None):
+def run_impl(flavour, h, seed, handles="one", entry="store", plan=None, res=None, importers="one"):
     import random
-    be = L.Backend(flavour, handles=handles, hseed=seed, entry=entry, plan=plan)
+    be = L.Backend(flavour, handles=handles, hseed=seed, entry=entry, plan=plan, importers=importers)
     be.import_keys = colliding_keys(random.Random(seed))
     be.idless = IDLESS
     out = []
@@ -305,7 +319,7 @@ def correspondence(ctx, res):
     hs = histories(ctx, "corr", ctx.scale(150, 1500), 30)
     for flavour, tagc in (("shared", "S"), ("disjoint", "D")):
         lines, meta = [], []
-        for hi, (flv, h, hm, em, pl) in enumerate(hs):
+        for hi, (flv, h, hm, em, pl, im) in enumerate(hs):
             if flavour not in flv:
                 continue
             lines.append(json.dumps([tagc, "reset"]))
@@ -317,12 +331,13 @@ def correspondence(ctx, res):
                 meta.append((hi, k, "snap"))
         replies = LeanDriver("C04").run(lines)
         impl = {}
-        for hi, (flv, h, hm, em, pl) in enumerate(hs):
+        for hi, (flv, h, hm, em, pl, im) in enumerate(hs):
             if flavour in flv:
                 # the model's handle is the graph id; the implementation is driven through handle OBJECTS kept across calls.
                 # The model's import is handed a graph and a graph id; the implementation's is, in every other history, handed
                 # a document (string or rewritten work file) through the importer's entry points
-                impl[hi] = run_impl(flavour, h, hi, hm, em, pl, res)
+                impl[hi] = run_impl(flavour, h, hi, hm, em, pl, res, importers=im)
+                res.count("%s:importers:%s" % (tagc, im))
                 res.count("%s:handles:%s" % (tagc, hm))
                 res.count("%s:entry:%s" % (tagc, em))
         bad = set()
@@ -347,9 +362,9 @@ def correspondence(ctx, res):
             if canon(got) != canon(exp):
                 bad.add(hi)
                 res.disagreements.append({"case": {"flavour": flavour, "history": h[:k + 1], "handles": hs[hi][2], "seed": hi,
-                                                   "entry": hs[hi][3], "plan": hs[hi][4]},
+                                                   "entry": hs[hi][3], "plan": hs[hi][4], "importers": hs[hi][5]},
                                           "at": [k, what], "impl": exp, "model": got})
-        for hi, (flv, h, hm, em, pl) in enumerate(hs):
+        for hi, (flv, h, hm, em, pl, im) in enumerate(hs):
             if flavour in flv and nontrivial(impl[hi]):
                 res.nontrivial.add(flavour + L.kind_seq(h))
     res.sample({"history": hs[-1][1][:6], "note": "each request is followed by a whole-store snapshot on both sides"})
@@ -396,9 +411,11 @@ def drift_queries(g):
     return [["list_all_node_ids", g]] + [["get_node_properties", g, x] for x in DRIFT_NIDS] + [["get_link_properties", g, "n1", "n2"]]
 
 
-def check_history(flavour, h, res, seed=0, handles="one", probe="every", entry="store", plan=None):
+def check_history(flavour, h, res, seed=0, handles="one", probe="every", entry="store", plan=None, importers="one", iplan=None,
+                  first_logger=None):
     import random
-    be = L.Backend(flavour, handles=handles, hseed=seed, entry=entry, plan=plan)
+    be = L.Backend(flavour, handles=handles, hseed=seed, entry=entry, plan=plan, importers=importers, iplan=iplan,
+                   first_logger=first_logger)
     be.import_keys = colliding_keys(random.Random(seed))
     be.idless = IDLESS
     try:
@@ -415,7 +432,8 @@ def _check_history(be, flavour, h, res, seed, handles, probe, entry, plan):
 
     def bad(sig, what, k, **kw):
         res.violation("C04:%s:%s" % (flavour, sig), what, {"flavour": flavour, "history": h[:k + 1], "seed": seed, "handles": handles,
-                                                            "entry": entry, "plan": plan}, **kw)
+                                                            "entry": entry, "plan": plan, "importers": be.importers, "iplan": be.iplan,
+                                                            "first_logger": be.first_logger}, **kw)
 
     for k, req in enumerate(h):
         op, tgt = req[0], L.target_of(req)
@@ -542,6 +560,11 @@ HANDLE_PREFIX = [["add_graph", "g1", {"nodes": [{"NodeID": "n1", "Class": "Netwo
                  ["clone", "g1", "g2"], ["unset_node_property", "g2", "n1", "p"]]
 
 
+# what the second / third importer of a process is made for (small scope behind one stored graph g1)
+IMPORTER_OPS = [["add_node", "g2", "n1", "Link", {"p": "x"}], ["clone", "g1", "g3"], ["update_nodes_property", "g1", "p", "y"],
+                ["delete_graph", "g2"], ["add_graph", "g2", {"nodes": [{"NodeID": "n1", "Class": "Link"}], "edges": []}]]
+
+
 def handle_alphabet():
     """operations for the small-scope enumeration behind HANDLE_PREFIX (a graph, its clone, one property dropped in the
     clone): merges refused for each reason and merges that go through, refused and accepted updates / unsets / deletes /
@@ -563,12 +586,16 @@ def oracle(ctx, res, n=None, length=30, depth=None):
     import copy
     import itertools
     hs = histories(ctx, "oracle", n or ctx.scale(250, 2500), length)
-    for hi, (flv, h, hm, em, pl) in enumerate(hs):
+    for hi, (flv, h, hm, em, pl, im) in enumerate(hs):
         for flavour in flv:
             res.evaluations += 1
             res.count("%s:handles:%s" % (flavour, hm))
             res.count("%s:entry:%s" % (flavour, em))
-            be, clones = check_history(flavour, h, res, seed=hi, handles=hm, entry=em, plan=pl)
+            res.count("%s:importers:%s" % (flavour, im))
+            be, clones = check_history(flavour, h, res, seed=hi, handles=hm, entry=em, plan=pl, importers=im)
+            for _, what in be.imp_log:
+                if what.startswith("new"):
+                    res.count("%s:importer-made-mid-history:%s" % (flavour, what[4:]))
             if clones:
                 res.count("%s:histories-with-clone" % flavour)
             res.nontrivial.add(flavour + L.kind_seq(h))
@@ -584,10 +611,27 @@ def oracle(ctx, res, n=None, length=30, depth=None):
             h = rename_ids(h, {"g2": "g1-v2"} if cnt % 4 == 1 else {"g1": "g2g"})
             res.count("exhaustive-lookalike-ids")
         for flavour in ("shared", "disjoint"):
-            check_history(flavour, h, res, seed=cnt, handles="one", probe="last")
+            # every third history with several importer objects of the process (made mid-history, with / without a logger)
+            check_history(flavour, h, res, seed=cnt, handles="one", probe="last", importers="many" if cnt % 3 == 2 else "one")
+        if cnt % 3 == 2:
+            res.count("exhaustive-several-importers")
         cnt += 1
     res.evaluations += 2 * cnt
     res.count("exhaustive-depth-%d" % depth, 2 * cnt)
+    # importer objects: a first importer made with / without a logger stores g1; before each of the next two requests another
+    # importer is made (with / without a logger) or the first one serves again; every pair of requests over IMPORTER_OPS
+    cnt0 = 0
+    for first in (False, True):
+        for kinds in itertools.product(("new-logger", "new-default", "old0"), repeat=2):
+            for tail in itertools.product(IMPORTER_OPS, repeat=2):
+                h = [copy.deepcopy(seed_two)] + [copy.deepcopy(r) for r in tail]
+                for flavour in ("shared", "disjoint"):
+                    for hm in ("one", "fresh"):
+                        check_history(flavour, h, res, seed=cnt0, handles=hm, probe="every", importers="many",
+                                      iplan={"1": kinds[0], "2": kinds[1]}, first_logger=first)
+                        cnt0 += 1
+    res.evaluations += cnt0
+    res.count("exhaustive-importers-made-mid-history", cnt0)
     # handle objects: every continuation of HANDLE_PREFIX over the 18 operations of handle_alphabet(), one handle object per
     # graph id for the whole history (depth 3 on the shared store, where merge_nodes exists; depth 2 with two handle objects
     # per graph id and on the disjoint store)
@@ -632,7 +676,8 @@ def replay(ctx, payload):
     r = core.Result()
     c = payload["case"]
     check_history(c["flavour"], c["history"], r, seed=c.get("seed", 0), handles=c.get("handles", "one"),
-                  entry=c.get("entry", "store"), plan=c.get("plan"))
+                  entry=c.get("entry", "store"), plan=c.get("plan"), importers=c.get("importers", "one"),
+                  iplan=c.get("iplan"), first_logger=c.get("first_logger"))
     for v in r.violations:
         print("  ", v["signature"], v["what"])
     return bool(r.violations)
